@@ -221,9 +221,14 @@ def run_check(prop, tier, module=None, explanation="", extra_assumptions=()):
         sys.stderr.write("TOOL-FAILURE: %s\n" % e)
         return 2
     except Exception:
-        traceback.print_exc()
-        sys.stderr.write("TOOL-FAILURE: internal error in rule module\n")
-        return 2
+        # a rule met a code shape it does not know how to read. The facts were extracted (the tree compiles), so this is
+        # not a tool failure: fail closed and report the construct as unrecognised -- the rule tables need a maintainer's look
+        tb = traceback.format_exc()
+        sys.stderr.write(tb)
+        last = [l for l in tb.strip().splitlines() if l.strip()][-3:]
+        ctx.ob("%s-unrecognised" % prop, "rule-aborted|%s" % (last[0].strip()[:120] if last else "?"), False,
+               "a rule of this property could not read the current code (unrecognised construct): %s" % " | ".join(x.strip() for x in last),
+               kind="unrecognised")
     known = load_known()
     # merge obligations across configs by key
     merged = {}
